@@ -7,6 +7,7 @@ from lcmsa.formula import parse
 from lcmsa.match import (
     all_frames,
     calls_in,
+    deep_selections,
     deep_walk,
     effective_formula,
     exists_formula,
@@ -567,7 +568,14 @@ def data_space_layout(ctx: Ctx):
         from_product = prod_n is not None and it == N(("call", ("attr", ("sub", dp[0], ("const", 0)), "items"), (), ()))
         # the raw grids of the sparse choices (what dict_product gets, or model.grids) instead of product rows
         raw = dp and it == N(("call", ("attr", (dp[0][2][0] if dp[0][2] else kw(dp[0], "d")), "items"), (), ()))
-        no_product = not dp
+        # without the dict_product helper: the choice part iterates the selected grids themselves if its source is a
+        # selection of grids that went through no product construction (meshgrid / itertools.product / dict_product)
+        raw_it = ch_comp[3][0][1]
+        src = raw_it[1][1] if (raw_it[0] == "call" and raw_it[1][0] == "attr" and raw_it[1][2] == "items") else raw_it
+        src_terms = list(deep_walk(prog, src))
+        has_product = any(callee_name(x) in ("lcm.simulate.dict_product", "jax.numpy.meshgrid", "numpy.meshgrid", "itertools.product")
+                          or (x[0] == "op" and x[1] in ("meshgrid",)) for x in src_terms if is_term(x))
+        no_product = (not dp) and (bool(deep_selections(prog, src)) or any(is_term(x) and x[0] == "qsel" for x in src_terms)) and not has_product
         if r is None:
             ctx.undecided("LAY1:choices-tile", "the choice part of the combination grid is not {name: tile/repeat(x, n)}", prog.where(grid_src))
         else:
@@ -626,10 +634,24 @@ def data_space_layout(ctx: Ctx):
                "the row mask is the conjunction (logical_and) of all model filters" if ok else
                "the row mask is not the logical_and of all filter functions", lhs=show(filt)[:200])
         kws = [v for k, v in mask[3] if k is None]
-        fixed = any(("const", "_period") in set(walk(x)) and ("param", q, "period") in set(deep_walk(prog, x)) for x in kws)
-        ctx.ob("LAY2:mask-period", fixed, prog.where(mask),
-               "filters are evaluated with _period = the current period" if fixed else
-               "the filters do not receive the current period", lhs=show(mask)[:200])
+        pp = ("param", q, "period")
+        vals = []
+        for x in kws:
+            for d in deep_walk(prog, x):
+                if is_term(d) and d[0] == "dict":
+                    vals += [v for k, v in d[1] if k == ("const", "_period")]
+                if is_term(d) and d[0] == "setitem" and d[2] == ("const", "_period"):
+                    vals.append(d[3])
+        if vals:
+            offs = [affine(v, pp) for v in vals]
+            fixed = True if all(o == (1, 0) for o in offs) else False if any(o is not None and o != (1, 0) for o in offs) else None
+            why = ("filters are evaluated with _period = the current period" if fixed else
+                   f"the filters are evaluated with _period = {show(vals[0])[:40]}, not with the period that is simulated" if fixed is False else
+                   "the value passed as _period is not recognised")
+        else:
+            fixed = None if any(("const", "_period") in set(walk(x)) for x in kws) else False
+            why = "the value passed as _period is not recognised" if fixed is None else "the filters do not receive the current period"
+        ctx.ob("LAY2:mask-period", fixed, prog.where(mask), why, lhs=show(mask)[:200])
 
 
 # ======================================================================================
